@@ -135,6 +135,10 @@ func (pingTransport) RoundTrip(req *http.Request) (*http.Response, error) {
 		return nil, err
 	}
 	_ = c.Close()
+	if e.getNet(req.URL.Host) == "http500" {
+		// the port is open but the health URL answers with an error
+		return &http.Response{StatusCode: 500, Status: "500 Internal Server Error", Proto: "HTTP/1.1", ProtoMajor: 1, ProtoMinor: 1, Header: http.Header{}, Body: http.NoBody, Request: req}, nil
+	}
 	return &http.Response{StatusCode: 200, Status: "200 OK", Proto: "HTTP/1.1", ProtoMajor: 1, ProtoMinor: 1, Header: http.Header{}, Body: http.NoBody, Request: req}, nil
 }
 
@@ -385,15 +389,15 @@ func goHook(site string, f func()) {
 		return // teardown / crash: the goroutine of a dying process never runs
 	}
 	parent := e.curTask()
-	pid := -1
-	name := "bg"
-	if parent != nil {
-		pid = parent.ID
-		name = fmt.Sprintf("%s/%d", parent.Name, parent.children)
-		parent.children++
-	} else {
-		name = fmt.Sprintf("bg%d", e.ntasks.Load())
+	if parent == nil {
+		// started by the controller itself (configuration applied at start-up or after a restart,
+		// where the caller may wait for it): nothing else runs at that moment, a plain goroutine
+		go f()
+		return
 	}
+	pid := parent.ID
+	name := fmt.Sprintf("%s/%d", parent.Name, parent.children)
+	parent.children++
 	t := e.newTask(name, "go:"+site, -1, func(*Task) { f() })
 	t.Parent = pid
 	e.spawn(t)
